@@ -185,6 +185,12 @@ def run_case(cfg):
             viol.append(V("value-mismatch", {"relerr": e, "tol": TOL, "test": [rnd(t) for t in test["out"]],
                                              "ref": [rnd(t) for t in ref["out"]]}))
     tleaves = [test["rep"].leaves[k] for k in cfg["rg"]]
+    tol_g = TOL
+    if cfg["method"].split(":")[0] in F.ADAPTIVE and base in DEP_KINDS + ["pure_twice", "em_twice"]:
+        # these kinds hand the SAME mathematical function to the adaptive integrator with another list of tensors;
+        # the augmented adjoint state (and with it the step-size control) differs, so the gradients agree to the
+        # integrator's tolerance (rtol 1e-8), not to rounding
+        tol_g = 1e-6
     for key, name in (("g1", "grad1"), ("g2", "grad2")):
         if ref[key] is None:
             continue
@@ -192,7 +198,7 @@ def run_case(cfg):
         obs["e" + key[1]] = rnd(e, 2)
         obs[key] = [None if g is None else rnd(g, 5) for g in ref[key]]
         for leaf, pe, tg, rgd in zip(cfg["rg"], per, test[key], ref[key]):
-            if pe > TOL:
+            if pe > tol_g:
                 viol.append(V("%s-mismatch:%s" % (name, leaf),
                               {"relerr": pe, "tol": TOL, "test": None if tg is None else rnd(tg),
                                "ref": None if rgd is None else rnd(rgd)}, leaf=leaf))
